@@ -536,10 +536,21 @@ func flushInHandlerCaseOn(prop string, flavour string, failCommits int, n, to, m
 	if to >= 6 {
 		trigger = uint64(to - 4) // the flush happens in the MIDDLE of the range: later heights of it were pending before
 	}
+	unreadable := 0
 	st.OnDelete(func(ctx context.Context, h uint64) error {
 		mu.Lock()
 		calls[h]++
 		mu.Unlock()
+		// the handler looks its header up with the context it was GIVEN (same values, already cancelled: never parks)
+		defer func() {
+			cctx, ccancel := context.WithCancel(ctx)
+			ccancel()
+			if x, err := st.GetByHeight(cctx, h); err != nil || x == nil || x.H != h {
+				mu.Lock()
+				unreadable++
+				mu.Unlock()
+			}
+		}()
 		if h == trigger {
 			once.Do(func() {
 				if failCommits > 0 {
@@ -607,8 +618,8 @@ func flushInHandlerCaseOn(prop string, flavour string, failCommits int, n, to, m
 		return strings.Join(xs, ",")
 	}
 	core.Fault = nil
-	emit("%s kind=flushinhandler flavour=%s failcommits=%d n=%d to=%d more=%d batch=%d => delete=%s head=%d tail=%d stored=%s keys=%s second=%s handledTwice=%d", prop, flavour, failCommits, n, to, more, batch,
-		errs(e1), hd, tl, js(stored), js(keys), errs(e2), twice)
+	emit("%s kind=flushinhandler flavour=%s failcommits=%d n=%d to=%d more=%d batch=%d => delete=%s head=%d tail=%d stored=%s keys=%s second=%s handledTwice=%d unreadableAtCall=%d", prop, flavour, failCommits, n, to, more, batch,
+		errs(e1), hd, tl, js(stored), js(keys), errs(e2), twice, unreadable)
 }
 
 // exhaustiveStoreCases: EVERY sequence of up to L operations from a state-relative alphabet over a short chain (thorough
